@@ -515,6 +515,11 @@ def run(prog, rep, tier='quick', config='default'):
         reach = {f.name: f for f in prog.product_fns()}
 
     # ------------------------------------------------------------------ R5a
+    from props import anchors
+    alias = {}
+    sv = anchors.sfl_validation(prog)
+    if sv is not None:
+        alias[sv.name] = '@sfl_validation'     # private function located by shape: keys survive a rename
     sites = []
     for fn in prog.product_fns():
         for c in fn.calls:
@@ -527,7 +532,7 @@ def run(prog, rep, tier='quick', config='default'):
         mm = CD_RE.search(c.gargs[0])
         cn0 = mm.group(1) if mm else '?'
         ordn[(fn.name, cn0)] = ordn.get((fn.name, cn0), 0) + 1
-        base = '%s|unwrap<%s>#%d' % (fn.name, cn0, ordn[(fn.name, cn0)])
+        base = '%s|unwrap<%s>#%d' % (alias.get(fn.name, fn.name), cn0, ordn[(fn.name, cn0)])
         # the try_from whose result is unwrapped
         org = mir.provenance(fn, c.args[0], pass_through=RESULT_PASS)
         tf = [x for x in org.calls if x.short == 'try_from' and 'TryFrom' in x.decl]
